@@ -133,6 +133,21 @@ func vfYield()                   {}
 func vfFreeze(x any)             {}
 func vfThaw(x any)               {}
 func vfTier() int                { return vfCur.Tier }
+func vfAnd(a, b bool) bool       { return a && b }
+func vfOr(a, b bool) bool        { return a || b }
+func vfImplies(a, b bool) bool   { return !a || b }
+func vfIteInt(c bool, a, b int) int {
+	if c {
+		return a
+	}
+	return b
+}
+func vfIteU64(c bool, a, b uint64) uint64 {
+	if c {
+		return a
+	}
+	return b
+}
 func vfNote(k string, v any) {
 	var s string
 	switch x := v.(type) {
